@@ -118,7 +118,7 @@ fn parse_call(tok: &str, statics: &mut Vec<Box<str>>) -> Call {
 }
 
 /// Runs one schedule; returns the canonical result line and oracle failures.
-fn run_schedule<K>(sc: &Scenario, sched: &[usize], free: bool) -> (String, Vec<String>)
+fn run_schedule<K>(sc: &Scenario, sched: &[usize], free: bool, arena_fmt: bool) -> (String, Vec<String>)
 where
     K: Key + std::hash::Hash + Send + Sync + 'static,
 {
@@ -334,6 +334,71 @@ where
     let strs_s: Vec<String> = strs.iter().map(|(k, s)| format!("{k}={}", hex(s.as_bytes()))).collect();
     let mut strs_sorted = strs_s.clone();
     strs_sorted.sort();
+    if arena_fmt {
+        // arena view: results without keys, blocks in list order, location of every stored string
+        let blocks = rodeo.verif_blocks();
+        let per: Vec<String> = per_thread
+            .iter()
+            .map(|p| {
+                let (name, rest) = p.split_once(':').unwrap();
+                let rs: Vec<String> = rest.split(',').filter(|x| !x.is_empty()).map(|r| if r.starts_with("ok") { "ok".to_string() } else { r.to_string() }).collect();
+                format!("{name}:{}", rs.join(","))
+            })
+            .collect();
+        let mut locs: Vec<String> = Vec::new();
+        let mut regions: Vec<(usize, usize, String)> = Vec::new();
+        for (_k, st) in rodeo.iter() {
+            if st.is_empty() {
+                continue;
+            }
+            let p = st.as_ptr() as usize;
+            match blocks.iter().position(|(b, c, _)| p >= *b && p + st.len() <= *b + *c) {
+                Some(pos) => {
+                    locs.push(format!("{}@{}:{}", hex(st.as_bytes()), pos, p - blocks[pos].0));
+                    regions.push((p, p + st.len(), hex(st.as_bytes())));
+                    if p + st.len() > blocks[pos].0 + blocks[pos].2 {
+                        oracle.push(format!("C05 string-beyond-reserved :: {} lies beyond the reserved length of its block", hex(st.as_bytes())));
+                    }
+                }
+                None => oracle.push(format!("C05 string-outside-blocks :: {} is not inside any block of the arena", hex(st.as_bytes()))),
+            }
+        }
+        regions.sort();
+        for w in regions.windows(2) {
+            if w[0].1 > w[1].0 {
+                oracle.push(format!("C05 regions-overlap :: {} and {} overlap in memory", w[0].2, w[1].2));
+            }
+        }
+        for (b, (_, c, u)) in blocks.iter().enumerate() {
+            if u > c {
+                oracle.push(format!("C05 block-overfull :: block {b}: reserved {u} > capacity {c}"));
+            }
+        }
+        let sum: usize = blocks.iter().map(|b| b.1).sum();
+        if sum != rodeo.current_memory_usage() {
+            oracle.push(format!("C09 usage-not-sum-of-blocks :: at quiescence usage {} but the blocks held sum to {sum}", rodeo.current_memory_usage()));
+        }
+        if rodeo.current_memory_usage() > sc.max.max(sc.cap) {
+            oracle.push(format!("C09 usage-exceeds-limit :: usage {} exceeds the limit {}", rodeo.current_memory_usage(), sc.max));
+        }
+        // every string a thread stored reads back intact
+        for (s0, k) in &all_told {
+            if K::try_from_usize(*k).and_then(|kk| rodeo.try_resolve(&kk)) != Some(s0.as_str()) {
+                oracle.push(format!("C05 string-altered :: {} no longer reads back", hex(s0.as_bytes())));
+            }
+        }
+        locs.sort();
+        let line = format!(
+            "{}|blocks:{}|locs:{}|usage={}|done=true",
+            per.join(";"),
+            blocks.iter().map(|(_, c, u)| format!("{c}:{u}")).collect::<Vec<_>>().join(","),
+            locs.join(","),
+            rodeo.current_memory_usage()
+        );
+        drop(rodeo);
+        drop(statics);
+        return (line, oracle);
+    }
     let line = format!(
         "{}|map:{}|strs:{}|ctr={}|mem={}|done=true",
         per_thread.join(";"),
@@ -347,15 +412,15 @@ where
     (line, oracle)
 }
 
-fn dispatch(sc: &Scenario, sched: &[usize], free: bool) -> (String, Vec<String>) {
+fn dispatch(sc: &Scenario, sched: &[usize], free: bool, arena_fmt: bool) -> (String, Vec<String>) {
     match sc.key.as_str() {
-        "1" => run_schedule::<SmallKey<1>>(sc, sched, free),
-        "2" => run_schedule::<SmallKey<2>>(sc, sched, free),
-        "3" => run_schedule::<SmallKey<3>>(sc, sched, free),
-        "4" => run_schedule::<SmallKey<4>>(sc, sched, free),
-        "5" => run_schedule::<SmallKey<5>>(sc, sched, free),
-        "255" => run_schedule::<lasso::MicroSpur>(sc, sched, free),
-        _ => run_schedule::<lasso::Spur>(sc, sched, free),
+        "1" => run_schedule::<SmallKey<1>>(sc, sched, free, arena_fmt),
+        "2" => run_schedule::<SmallKey<2>>(sc, sched, free, arena_fmt),
+        "3" => run_schedule::<SmallKey<3>>(sc, sched, free, arena_fmt),
+        "4" => run_schedule::<SmallKey<4>>(sc, sched, free, arena_fmt),
+        "5" => run_schedule::<SmallKey<5>>(sc, sched, free, arena_fmt),
+        "255" => run_schedule::<lasso::MicroSpur>(sc, sched, free, arena_fmt),
+        _ => run_schedule::<lasso::Spur>(sc, sched, free, arena_fmt),
     }
 }
 
@@ -430,8 +495,9 @@ fn main() {
             Some("cthread") => sc.programs.push(t[1..].iter().map(|x| x.to_string()).collect()),
             Some("cprefill") => sc.prefill = t[1..].iter().map(|x| x.to_string()).collect(),
             Some("cshard") => {}
-            Some("crun") | Some("cfree") => {
-                let free = t[0] == "cfree";
+            Some("crun") | Some("cfree") | Some("arun") | Some("afree") => {
+                let free = t[0] == "cfree" || t[0] == "afree";
+                let arena_fmt = t[0].starts_with('a');
                 if i < from {
                     continue;
                 }
@@ -440,7 +506,7 @@ fn main() {
                     Some(s) if *s != "_" => s.split(',').filter_map(|x| x.parse().ok()).collect(),
                     _ => Vec::new(),
                 };
-                let (line, oracle) = dispatch(&sc, &sched, free);
+                let (line, oracle) = dispatch(&sc, &sched, free, arena_fmt);
                 for o in oracle {
                     writeln!(orc, "{o} :: schedule {} of scenario [{} cap {} max {} programs {:?} prefill {:?}] (line {})", t.get(1).unwrap_or(&"_"), sc.key, sc.cap, sc.max, sc.programs, sc.prefill, i + 1).unwrap();
                 }
